@@ -1,9 +1,11 @@
 import TxV.Model.Forwarder
 import TxV.Model.Pipe
-open TxV TxV.Proto
+open TxV TxV.Proto TxV.QueueUtil
 
 structure DState where
   cls : String
+  ow : List Nat := []     -- priority order of the write callers (multi-caller cases)
+  or : List Nat := []     -- priority order of the read callers
   fwd : TxV.Forwarder.State
   pipe : TxV.Pipe.State
 
@@ -16,8 +18,8 @@ def stepLine (s : DState) (line : String) : DState × String :=
   match t.head? with
   | some "cfg" =>
     match kv? t "cls" with
-    | some "fwd" => ({ cls := "fwd", fwd := TxV.Forwarder.init, pipe := TxV.Pipe.init }, "ok")
-    | some "pipe" => ({ cls := "pipe", fwd := TxV.Forwarder.init, pipe := TxV.Pipe.init }, "ok")
+    | some "fwd" => ({ cls := "fwd", ow := natListOf t "pw", or := natListOf t "pr", fwd := TxV.Forwarder.init, pipe := TxV.Pipe.init }, "ok")
+    | some "pipe" => ({ cls := "pipe", ow := natListOf t "pw", or := natListOf t "pr", fwd := TxV.Forwarder.init, pipe := TxV.Pipe.init }, "ok")
     | _ => ({ s with cls := "" }, "bad-op")
   | some "cyc" =>
     match kv? t "w", nat? t "r", nat? t "p", nat? t "c" with
@@ -36,6 +38,21 @@ def stepLine (s : DState) (line : String) : DState × String :=
            s!"w={showBool o.wr.isSome} r={showOpt o.rd} p={showOpt o.pk} c={showBool o.clr} rdy={showBool o.rrdy}{showBool o.rrdy}{showBool o.wrdy}")
         else (s, "bad-op")
     | _, _, _, _ => (s, "bad-op")
+  | some "mcyc" =>
+    -- several callers per method: `mcyc w=5,- r=1,1 p=0,1 c=0` → `w=1,0 r=-,5 p=-,5 c=0 rdy=…`
+    match MProto.parseMIn t true with
+    | none => (s, "bad-op")
+    | some mi =>
+      let e := eff s.ow s.or mi
+      if s.cls == "fwd" then
+        let (f', o) := TxV.Forwarder.step s.fwd ⟨e.w, e.r, e.p, e.c⟩
+        ({ s with fwd := f' },
+         s!"{MProto.showM mi e o.wr o.rd o.pk o.clr true} rdy={showBool o.rrdy}{showBool o.rrdy}{showBool o.wrdy}")
+      else if s.cls == "pipe" then
+        let (f', o) := TxV.Pipe.step s.pipe ⟨e.w, e.r, e.p, e.c⟩
+        ({ s with pipe := f' },
+         s!"{MProto.showM mi e o.wr o.rd o.pk o.clr true} rdy={showBool o.rrdy}{showBool o.rrdy}{showBool o.wrdy}")
+      else (s, "bad-op")
   | _ => (s, "bad-op")
 
 def main : IO Unit := Proto.run ({ cls := "", fwd := TxV.Forwarder.init, pipe := TxV.Pipe.init } : DState) stepLine
